@@ -282,13 +282,13 @@ TracePrefix ==
     /\ IF ~PrefixCountOK
          THEN /\ st' = "fail"
               /\ PrintT(<<"REJECT", ToJson([rec |-> k, tok |-> 0, pos |-> 0, why |-> "prefix-token-count",
-                                            expected |-> {}, at |-> "none", numlike |-> FALSE,
+                                            expected |-> {}, at |-> "none", next |-> "none", numlike |-> FALSE,
                                             bad |-> {PrefToks(Rec[k].idx)}])>>)
          ELSE LET bad == PrefixBad IN
               IF bad # {}
                 THEN /\ st' = "fail"
                      /\ PrintT(<<"REJECT", ToJson([rec |-> k, tok |-> 0, pos |-> 0, why |-> "prefix-token",
-                                                   expected |-> {}, at |-> "none", numlike |-> FALSE, bad |-> bad])>>)
+                                                   expected |-> {}, at |-> "none", next |-> "none", numlike |-> FALSE, bad |-> bad])>>)
                 ELSE st' = "run"
     /\ UNCHANGED <<text, pos, toks, k, j>>
 
@@ -325,6 +325,11 @@ NumLike ==
        /\ \E q \in pos..(pos + n - 1) : Ch(text, q) \in UniDigit
        /\ LET s == AsciiDigits(Sub(text, pos, n)) IN IsInt(s, 1, n) \/ IsFloat(s, 1, n)
 
+NextClass ==   \* the class of the character that follows the expected token
+    IF pos <= Len(text) /\ MatchLens(text, pos) # {}
+      THEN LET q == pos + SetMax(MatchLens(text, pos)) IN IF q <= Len(text) THEN ClassName(Ch(text, q)) ELSE "end"
+      ELSE "none"
+
 TraceReject ==
     /\ st = "run" /\ ~AtBlank
     /\ ~(pos > Len(text) /\ j > NT)
@@ -334,7 +339,7 @@ TraceReject ==
                                   expected |-> IF pos <= Len(text) /\ MatchLens(text, pos) # {}
                                                THEN Expected(text, pos) ELSE {},
                                   at |-> IF pos <= Len(text) THEN ClassName(Ch(text, pos)) ELSE "end",
-                                  numlike |-> NumLike, bad |-> {}])>>)
+                                  next |-> NextClass, numlike |-> NumLike, bad |-> {}])>>)
     /\ UNCHANGED <<text, pos, toks, k, j>>
 
 TraceNext == TracePrefix \/ TraceSkip \/ TraceEmit \/ TraceAccept \/ TraceReject
